@@ -2,6 +2,7 @@
 import csv
 import math
 import os
+import shutil
 import tempfile
 import warnings
 
@@ -14,7 +15,17 @@ KINDS = ['KMixed', 'KFloat', 'KInt']
 PATHS = ['WholeScalar', 'WholeSeq', 'CellInt', 'SliceScalar', 'SliceSeq', 'IndexList', 'Selection',
          'RowAttr', 'CtorKeyword', 'ConcatDM', 'ConcatDict', 'CsvRead', 'FromCol:KMixed', 'FromCol:KFloat',
          'FromCol:KInt', 'IndexListNp', 'SelectionNp', 'SliceNp', 'WholeNp', 'ConcatFromCol:KMixed',
-         'ConcatFromCol:KFloat', 'ConcatFromCol:KInt']
+         'ConcatFromCol:KFloat', 'ConcatFromCol:KInt', 'WholeTuple', 'WholeGen', 'SliceGen', 'IndexListTuple',
+         'SelectionGen']
+# other iterables as values go through the same element-wise branch as lists: the L1 path they are compared with
+PROXY = {'WholeTuple': 'WholeSeq', 'WholeGen': 'WholeSeq', 'SliceGen': 'SliceSeq', 'IndexListTuple': 'IndexList',
+         'SelectionGen': 'IndexList'}
+
+
+def work_dir():
+    """scratch directory: the private one of tools/mutant_check.sh if set, else /verif/.work"""
+    return os.environ.get('VERIF_WORK') or os.path.join(os.path.dirname(os.path.dirname(os.path.abspath(__file__))),
+                                                        '.work')
 
 
 def coltype(kind):
@@ -26,7 +37,42 @@ class Obj(object):
     pass
 
 
-def alphabet():
+# Behaviour of the UNCHANGED tree that contradicts the property text and is waiting for the coordinator's decision
+# (see the builder report): such inputs stay out of the default stream.
+#  (a) dm.name = <column derived from the same table, rows aligned> is inserted by reference by DataMatrix._set_col
+#      without coercion: a MixedColumn then holds 1.0 / numpy scalars / lists (dm.b = dm.a / 2, dm.c = dm.a @ f);
+#  (b) an int (or integer string) beyond the float64 range written to a FloatColumn raises OverflowError
+#      instead of storing a float.
+INCLUDE_PENDING_FINDINGS = False
+
+# ---- a column object as the assigned value -------------------------------------------------------------------
+# how the target table (3 rows, column k = row number, column c of the kind under test) came to be
+CV_STATES = ['fresh', 'cat', 'catL', 'catR', 'catRow', 'catEmptySelR', 'catEmptyDMR', 'catEmptyLen0R',
+             'catEmptyDictR', 'catEmptyColsDictR', 'catEmptySelL', 'catEmptyDML', 'catEmptyTwice', 'slice', 'select']
+# how the column object is written -> the form of Model/C05Paths.v
+CV_FORMS = {'SliceAll': 'FSlice', 'Slice0n': 'FSlice', 'SlicePart': 'FSlice', 'SeqKey': 'FSeqKey',
+            'SeqKeyPerm': 'FSeqKey', 'DmKey': 'FSeqKey', 'SetAttr': 'FSetCol', 'SetItem': 'FSetCol',
+            'CtorKw': 'FSetCol'}
+# where the column object comes from (its cell 1 is derived from the alphabet value)
+CV_SOURCES = ['MapSame', 'MapOther', 'MapOtherSliced', 'ArithSame', 'ArithOther',
+              'Stored.KMixed', 'Stored.KFloat', 'Stored.KInt',
+              'StoredSame.KMixed', 'StoredSame.KFloat', 'StoredSame.KInt', 'StoredSameSliced.KMixed']
+CV_SOURCES_QUICK = ['MapSame', 'MapOther', 'MapOtherSliced', 'ArithOther', 'Stored.KMixed', 'Stored.KFloat',
+                    'Stored.KInt', 'StoredSame.KFloat']
+# table states x plain (non-column) values
+AFTER_PATHS = ['CellInt', 'SliceScalar', 'SliceSeq', 'IndexList', 'Selection', 'RowAttr', 'WholeSeq', 'WholeScalar']
+
+
+def cv_values():
+    return [0, 1, -13, 2 ** 53 + 1, True, 0.0, -0.0, 1.0, 2.5, 1e22, float('nan'), float('inf'), np.int64(7),
+            np.float64(4.0), np.float32(1.5), '3', ' 4 ', '3.0', '1e3', 'nan', 'abc', '', '\u00b2', None, Obj()]
+
+
+def cv_values_small():
+    return [2.0, Obj(), '3']
+
+
+def alphabet(extended=False):
     ints = [0, 1, -1, 7, -13, 2**31 - 1, -2**31, 2**31, 2**53, 2**53 + 1, -(2**53) - 1, 2**53 - 1, 2**62 + 3,
             2**63 - 1, -(2**63) + 1]
     floats = [0.0, -0.0, 1.0, -3.0, 2.5, -0.75, 1e22, 1e23, 1.5e300, 5e-324, 2.2250738585072014e-308, 0.1,
@@ -41,39 +87,97 @@ def alphabet():
             '١٢', '٣.٥', '', ' ', 'abc', 'None', 'True', '1 2', '--1', '1e', 'e5', 'é', '日本', 'a"b', "it's",
             'x,y', 'line\nfeed', '12abc', '0.1', '123456789012345678901234567890', '1' * 30 + '.5', '-0', '-0.0',
             '4.0', '1e22', '1e23']
+    # corner cases of Python's numeric string grammar (what int() / float() accept is not what str.isdigit(),
+    # str.isnumeric() or a regular expression over ASCII digits accept)
+    ext = [
+        # isdigit() is true, int() raises: superscripts, circled digits, mixed with decimals
+        '\u00b2', '\u2460\u2461', '\u00b9\u2070', 'm\u00b2', '1\u00b2', '\u2075',
+        # isnumeric() only: vulgar fraction, roman numeral, CJK numerals
+        '\u00bd', '\u2163', '\u4e00\u4e8c',
+        # decimal digits of other scripts are legal: Arabic-Indic, fullwidth, Thai, Devanagari; also inside floats
+        '\u0663', '\uff11\uff12', '\u0e53', '\u0967\u0968', '-\uff11\uff12', '\uff11\uff12.\uff15', '\uff11e\uff12',
+        '\u0663\u0664\u0665\u0666\u0667\u0668\u0669\u0660\u0661\u0662\u0663\u0664\u0665\u0666\u0667\u0668\u0669',
+        # Unicode whitespace around a number is stripped (ideographic space, no-break space, NEL); zero-width space is not
+        '\u300012', '\xa012\xa0', '\x851', '\u200b12', '1\x00', '1 ', '\n1', ' 1.5\t', '\r\n2\r\n',
+        # signs
+        '+ 5', '- 1', '+-1', '-+1', '++1', '+0', '-.5', '+.5e1', '+1.', '+',  '-',
+        # underscores: only between digits
+        '_1', '1_', '1__0', '0_0', '1_000.5', '1e1_0', '1_e3', '1._5', '9_007_199_254_740_993',
+        # prefixes, suffixes, other literals of the language that int()/float() reject
+        '0b1', '0o7', '0X1F', '1L', '1j', '1f', '1d', '1e+3', '1E-0', '1e+', 'e', '.', '..5', '1.2.3', '1/2', '1,000',
+        '00', '-00', '0e0', '-0e0', '0.0e-400',
+        # nan / inf spellings
+        ' nan ', 'NAN', '+nan', 'nan(0)', 'nann', 'infinity', '-Infinity', ' inf', 'Inf', 'infinit', 'in f', '+inf', 'INFINITY ',
+        # magnitudes
+        '1e308', '1.8e308', '-1.8e308', '1e309', '2e-324', '3e-324', '1' * 400, '-' + '9' * 310, '9' * 400 + '.5',
+        '0.' + '0' * 400 + '1', '1' + '0' * 22, '18446744073709551616', '-9223372036854775808', '9223372036854775807',
+    ]
     other = [None, True, False, Obj()]
+    if extended:
+        return ext
     return ints, floats, npv, strs, other
+
+
+# the extended spellings exercise the per-cell chain; in the quick tier they go through these paths only
+EXT_PATHS = ['WholeScalar', 'WholeSeq', 'CellInt', 'SliceSeq', 'Selection', 'RowAttr', 'CtorKeyword', 'ConcatDict',
+             'CsvRead', 'FromCol:KMixed']
 
 
 class C05:
     id = 'C05'
     props_file = 'theories/Props/C05.v'
-    kernel_files = ['KCheck.v']
+    kernel_files = ['KCheck.v', 'KC05Paths.v']
     oracle_vos = ['theories/Run/SC05.vo']
     model_vos = ['theories/Run/RC05.vo']
     oracle_imports = ['From DM Require Import Run.SC05.']
     model_imports = ['From DM Require Import Run.RC05.']
     exhaustive = True
-    rule = ('every value of a fixed alphabet (ints around 0, +-2^31, +-2^53(+-1), 2^63-1; bools; floats incl. -0.0, '
+    rule = ('(1) every value of a fixed alphabet (ints around 0, +-2^31, +-2^53(+-1), 2^63-1; bools; floats incl. -0.0, '
             'nan, +-inf, subnormal, 1e22/1e23; numpy int8..int64/uint8/float32/float64 scalars; ~60 numeric and '
             'non-numeric string spellings incl. whitespace, underscores, non-ASCII digits; None; an unsupported object) '
-            'x 3 column types x 22 write paths (incl. assignment of a column of each type, NumPy-array values, and a column of a << b result), exhaustively; thorough adds random ints/floats/strings. The cell is read '
-            'back through col[i], iteration and Row access (all three must agree and be plain int/float/str/None). '
+            'x 3 column types x 27 write paths (incl. assignment of a column of each type, NumPy-array values, tuples, '
+            'generators and a column of a << b result), exhaustively; plus 94 corner spellings of Python\'s numeric string grammar '
+            '(isdigit()-but-not-decimal superscripts/circled digits, isnumeric()-only characters, decimal digits of other '
+            'scripts, Unicode whitespace, sign/underscore/prefix/suffix variants, nan/inf spellings, 300-400 digit strings, '
+            'float over/underflow) x 3 types x 10 paths (all 27 in the thorough tier); int(s)/float(s) of every string are '
+            'taken from the running interpreter and handed to the L0 spec. '
+            '(2) a column object as value: 15 table states (fresh; a << b with the column on both sides / left only / '
+            'right only / a Row operand; a << EMPTY and EMPTY << a for an empty selection, DataMatrix(), '
+            'DataMatrix(length=0), {}, a dict of empty columns, twice; slice; selection) x 9 forms (col[:], col[0:n], '
+            'col[a:b] = value[a:b], index list, permuted index list, selection, dm.c = value, dm["c"] = value, constructor '
+            'keyword) x 8 (thorough: 12) sources (col @ f and col / 1 of the same / another table / sliced, i.e. MixedColumns '
+            'whose raw storage is NOT normal; stored columns of each type of another / the same table) x {2.0, unsupported '
+            'object, "3"} x 3 types, and a 25-value alphabet on a 4x4x3 sub-grid; the assigned value handed to the spec is '
+            'the cell the value column hands out (value[1]); for dm.c = value the column must take the value\'s type. '
+            '(3) 6 plain values x 8 scalar/sequence/cell/Row paths x the 14 non-fresh table states x 3 types. '
+            'thorough adds random ints/floats/strings and 6000 random (state, form, source, value) combinations. The cell is read '
+            'back through col[i], iteration and Row access (all must agree and be plain int/float/str/None). '
             'non-trivial = the stored value differs from the assigned object or an exception is raised; distinct by '
             '(kind, path, value)')
     trusted_base = [
         'Coq 8.16.1 kernel (coqc; vm_compute for evaluating cases; no native_compute)',
         'translator /verif/translate (pystmt.py, gen_checktype.py): _checktype_regular, BaseColumn._checktype, '
         'NumericColumn._checktype, IntColumn._checktype -> Gen/KCheck.v',
+        'translator /verif/translate/gen_c05paths.py -> Gen/KC05Paths.v: guard of BaseColumn._setslicekey, scalar test of '
+        'BaseColumn._tosequence, exit chain of NumericColumn._tosequence (translated); IntColumn._tosequence, '
+        'IntColumn._setslicekey, _setintkey, _setsequencekey, both _setdatamatrixkey, the column branch and tail of '
+        'DataMatrix._set_col, every assignment to _typechecking and the single exit of DataMatrix.__lshift__ (pinned by AST)',
         'hand-written CPython/NumPy models in Base/PyVal.v and Model/Store.v (int(), float(), math.isnan, ==, '
         'float64/int64 array stores), exercised by the correspondence',
-        'harness/c05.py, harness/pyobs.py (classification of objects incl. the builtins int(s)/float(s) as grammar oracle)',
+        'harness/c05.py, harness/pyobs.py (classification of objects incl. the builtins int(s)/float(s) as grammar oracle; '
+        'the _typechecking flag of the target column is read before a column-valued write and handed to the L1 model only)',
     ]
     assumptions = [
         'fastnumbers is not installed (checked at run time): _checktype_regular is the live variant',
         'byte strings, int64 overflow and complex numbers are outside the claim',
-        'the skeleton of each write path (which code calls _checktype per cell) is modelled by hand in Model/Store.v '
-        'and tied by the correspondence only',
+        'which exit of _tosequence / _setslicekey a write takes is decided by regenerated kernels (Gen/KC05Paths.v); what '
+        'each exit does (NumPy buffer casts, list(value), the loops) is modelled by hand in Model/Store.v, '
+        'Model/C05Paths.v over pinned source and tied by the correspondence',
+        '_typechecking is True on every column a caller can hold: pinned (assignments only in BaseColumn.__init__ and '
+        'DataMatrix.__lshift__, which has one exit, after the re-enabling loop), and observed per column-valued case',
+        'pending (kept out of the default stream, INCLUDE_PENDING_FINDINGS): dm.name = <row-aligned column derived from '
+        'the same table> is inserted by reference without coercion; an integer beyond the float64 range written to a '
+        'FloatColumn raises OverflowError',
     ]
 
     # ---- implementation runner ------------------------------------------
@@ -82,8 +186,13 @@ class C05:
         from datamatrix import DataMatrix, io
         ct = coltype(kind)
         pos = 1
+        state = None
+        if path.startswith('After/'):
+            _tag, state, path = path.split('/')
 
         def fresh():
+            if state is not None:
+                return self._state(ct, state)
             dm = DataMatrix(length=3)
             dm.k = 0, 1, 2
             dm.c = ct
@@ -106,9 +215,24 @@ class C05:
         elif path == 'IndexList':
             dm = fresh()
             dm.c[[2, 1]] = [0, v]
+        elif path == 'WholeTuple':
+            dm = fresh()
+            dm.c = (0, v, 0)
+        elif path == 'WholeGen':
+            dm = fresh()
+            dm.c = (x for x in [0, v, 0])
+        elif path == 'SliceGen':
+            dm = fresh()
+            dm.c[0:2] = iter([0, v])
+        elif path == 'IndexListTuple':
+            dm = fresh()
+            dm.c[[2, 1]] = (0, v)
+        elif path == 'SelectionGen':
+            dm = fresh()
+            dm.c[dm.k >= 1] = (x for x in [v, 0])
         elif path == 'Selection':
             dm = fresh()
-            dm.c[dm.k == 1] = v
+            dm.c[dm.k == dm.k[1]] = v
         elif path == 'RowAttr':
             dm = fresh()
             dm[1].c = v
@@ -160,6 +284,7 @@ class C05:
                 return ('skip', None)
             dm.c[:] = dm.o
         elif path == 'CsvRead':
+            os.makedirs(self.tmpdir, exist_ok=True)
             fd, fn = tempfile.mkstemp(suffix='.csv', dir=self.tmpdir)
             with os.fdopen(fd, 'w', encoding='utf-8', newline='') as f:
                 w = csv.writer(f, lineterminator='\n')
@@ -167,8 +292,10 @@ class C05:
                 w.writerow(['0'])
                 w.writerow([v])
                 w.writerow(['0'])
-            dm = io.readtxt(fn, default_col_type=ct)
-            os.unlink(fn)
+            try:
+                dm = io.readtxt(fn, default_col_type=ct)
+            finally:
+                os.unlink(fn)
         else:
             raise AssertionError(path)
         col = dm.c
@@ -180,11 +307,198 @@ class C05:
         r4 = dm[pos]['c']
         return ('ok', (r1, r2, r3, r4))
 
+
+    # ---- table states and column objects as values -------------------------
+    def _state(self, ct, state):
+        """A 3-row table with column k (row numbers) and column c of type ct, obtained as `state` says."""
+        from datamatrix import DataMatrix
+
+        def base(n, with_c=True, with_k=True):
+            dm = DataMatrix(length=n)
+            if with_k:
+                dm.k = list(range(n))
+            if with_c:
+                dm.c = ct
+            return dm
+        if state == 'fresh':
+            return base(3)
+        if state == 'cat':
+            return base(2) << base(1)
+        if state == 'catL':
+            return base(2) << base(1, with_c=False)
+        if state == 'catR':
+            return base(2, with_c=False) << base(1)
+        if state == 'catRow':
+            return base(2) << base(1)[0]
+        if state == 'catEmptySelR':
+            a = base(3)
+            return a << (a.k > 100)
+        if state == 'catEmptyDMR':
+            return base(3) << DataMatrix()
+        if state == 'catEmptyLen0R':
+            return base(3) << DataMatrix(length=0)
+        if state == 'catEmptyDictR':
+            return base(3) << {}
+        if state == 'catEmptyColsDictR':
+            return base(3) << {'k': []}
+        if state == 'catEmptySelL':
+            a = base(3)
+            return (a.k > 100) << a
+        if state == 'catEmptyDML':
+            return DataMatrix() << base(3)
+        if state == 'catEmptyTwice':
+            a = base(3)
+            return (a << (a.k > 100)) << DataMatrix()
+        if state == 'slice':
+            return base(5)[1:4]
+        if state == 'select':
+            a = base(5)
+            return a.k >= 2
+        raise AssertionError(state)
+
+    def _source(self, dm, src, v):
+        """A column object (3 cells) whose cell 1 is derived from v; None if v cannot get there."""
+        from datamatrix import DataMatrix, MixedColumn
+        if src in ('MapSame', 'MapOther', 'MapOtherSliced'):
+            o = dm if src == 'MapSame' else DataMatrix(length=5 if src == 'MapOtherSliced' else 3)
+            o.s = MixedColumn
+            col = o.s @ (lambda x: v)
+            return col[1:4] if src == 'MapOtherSliced' else col
+        if src in ('ArithSame', 'ArithOther'):
+            o = dm if src == 'ArithSame' else DataMatrix(length=3)
+            try:
+                o.s = [0, v, 0]
+            except Exception:
+                return None
+            return o.s / 1            # true division: integral cells become floats (1 -> 1.0)
+        name, k2 = src.split('.')
+        o = DataMatrix(length=3) if name == 'Stored' else dm
+        o.s = coltype(k2)
+        try:
+            o.s = [0, v, 0]
+        except Exception:
+            return None
+        return o.s[:] if name == 'StoredSameSliced' else o.s
+
+    def _write_colval(self, kind, state, form, src, v):
+        """-> ('skip',) or (status, result, info) where info = (k2, tc, raw, kobs)"""
+        from datamatrix import DataMatrix, MixedColumn, FloatColumn, IntColumn
+        ct = coltype(kind)
+        kinds = {MixedColumn: 'KMixed', FloatColumn: 'KFloat', IntColumn: 'KInt'}
+        try:
+            dm = self._state(ct, state)
+            col = self._source(dm, src, v)
+            if col is not None and (len(dm) != 3 or type(dm.c) is not ct or len(col) != 3):
+                return ('typefail', 'building the table state %s / the value column %s went wrong' % (state, src),
+                        (kind, True, v, kind))
+        except Exception as e:      # noqa: BLE001  (judged: the preparation uses only operations that must succeed)
+            return ('exn', pyobs.exn_name(e), (kind, True, v, kind))
+        if col is None:
+            return ('skip',)
+        k2 = kinds[type(col)]
+        raw = col[1]                       # the cell as the column hands it out
+        tc = bool(getattr(dm.c, '_typechecking', True))
+        try:
+            if form == 'SliceAll':
+                dm.c[:] = col
+            elif form == 'Slice0n':
+                dm.c[0:3] = col
+            elif form == 'SlicePart':
+                dm.c[1:3] = col[1:3]
+            elif form == 'SeqKey':
+                dm.c[[0, 1, 2]] = col
+            elif form == 'SeqKeyPerm':
+                dm.c[[2, 1, 0]] = col[[2, 1, 0]]
+            elif form == 'DmKey':
+                dm.c[dm.k >= 0] = col
+            elif form == 'SetAttr':
+                dm.c = col
+            elif form == 'SetItem':
+                dm['c'] = col
+            elif form == 'CtorKw':
+                dm = DataMatrix(length=3, c=col)
+            else:
+                raise AssertionError(form)
+        except AssertionError:
+            raise
+        except Exception as e:      # noqa: BLE001
+            return ('exn', pyobs.exn_name(e), (k2, tc, raw, kind))
+        c = dm.c
+        if type(c) not in kinds:
+            return ('typefail', 'column type is %s' % type(c).__name__, (k2, tc, raw, kind))
+        return ('ok', (c[1], list(c)[1], dm[1].c, dm[1]['c']), (k2, tc, raw, kinds[type(c)]))
+
+    def cv_applicable(self, kind, state, form, src, v):
+        if form == 'CtorKw' and state != 'fresh':
+            return False
+        if not INCLUDE_PENDING_FINDINGS and CV_FORMS[form] == 'FSetCol' and src in ('MapSame', 'ArithSame'):
+            return False            # pending finding (a): inserted by reference, raw storage not coerced
+        return True
+
+    def _rerun_colval(self, inp):
+        kind, v = inp['kind'], self._decode(inp['value'])
+        _tag, state, form, src = inp['path'].split('/')
+        with warnings.catch_warnings():
+            warnings.simplefilter('ignore')
+            out = self._write_colval(kind, state, form, src, v)
+        if out[0] == 'skip':
+            return None
+        k2, tc, raw, kobs = out[2]
+        kexp = k2 if CV_FORMS[form] == 'FSetCol' else kind
+        # outside the claim / the model: int64 and float64 overflow of the cell handed out
+        if not self.applicable(kexp, 'ColVal', raw) or not self.applicable(kind, 'ColVal', raw):
+            return None
+        pyfail = None
+        if out[0] == 'exn':
+            obs_lit = '(Raise %s)' % out[1]
+            observed = {'raises': out[1]}
+        elif out[0] == 'typefail':
+            obs_lit = '(Raise OtherError)'
+            observed = {'typefail': out[1]}
+            pyfail = out[1]
+        else:
+            rs = out[1]
+            lits = [pyobs.val(r) for r in rs]
+            observed = {'read_back': pyobs.jsonable(rs[0]), 'type': type(rs[0]).__name__, 'column': kobs}
+            if any(l is None for l in lits):
+                pyfail = 'read-back is not a plain int/float/str/None: %r' % ([type(r).__name__ for r in rs],)
+                obs_lit = '(Raise OtherError)'
+            else:
+                if len(set(lits)) != 1:
+                    pyfail = 'col[i], iteration and Row access disagree: %r' % (lits,)
+                obs_lit = '(Ok %s)' % lits[0]
+        observed['value_cell'] = pyobs.jsonable(raw)
+        observed['typechecking_before'] = tc
+        pv = pyobs.pyv(raw)
+        trivial = out[0] == 'ok' and pyfail is None and pyobs.val(raw) == pyobs.val(out[1][0])
+        setform = CV_FORMS[form] == 'FSetCol'
+        return {
+            'input': inp, 'observed': observed, 'pyfail': pyfail,
+            'oracle': '(oracle_colval %s %s %s %s %s %s)' % (L.boolean(setform), kind, k2, kobs, pv, obs_lit),
+            'model': '(model_agrees_colval %s %s %s %s %s %s)' % (L.boolean(tc), CV_FORMS[form], kind, k2, pv, obs_lit),
+            'nontrivial': not trivial,
+            'sig': '%s|%s|%s' % (kind, inp['path'], pyobs.pyv(v) if not isinstance(v, Obj) else 'POther'),
+            'tags': [kind, 'ColVal', 'state:' + state, 'form:' + form, 'src:' + src, pv.split(' ')[0].strip('()')],
+        }
+
     def applicable(self, kind, path, v):
         if path.endswith('Np') and not (type(v) in (int, float) and abs(v) < 2 ** 63 if type(v) is int else type(v) is float):
             return False
         if path == 'CsvRead' and not (type(v) is str and '\r' not in v and '\x00' not in v and v != ''):
             return False
+        if kind == 'KFloat' and not INCLUDE_PENDING_FINDINGS:
+            # pending finding (b): an integer beyond the float64 range
+            x = v
+            if type(v) is str:
+                try:
+                    x = int(v)
+                except ValueError:
+                    x = None
+            if type(x) is int:
+                try:
+                    float(x)
+                except OverflowError:
+                    return False
         if kind == 'KInt':
             # int64 overflow is outside the claim (and outside the model)
             try:
@@ -194,6 +508,8 @@ class C05:
                         x = int(v)
                     except ValueError:
                         x = float(v)
+                if isinstance(x, (int, np.integer)) and not isinstance(x, bool) and abs(int(x)) >= 2 ** 63:
+                    return False
                 if isinstance(x, (int, float, np.integer, np.floating)) and not isinstance(x, bool):
                     if math.isfinite(float(x)) and (abs(int(x)) >= 2 ** 63 or abs(int(float(x))) >= 2 ** 63):
                         return False
@@ -202,6 +518,8 @@ class C05:
         return True
 
     def rerun(self, inp):
+        if inp['path'].startswith('ColVal/'):
+            return self._rerun_colval(inp)
         kind, path, v = inp['kind'], inp['path'], self._decode(inp['value'])
         with warnings.catch_warnings():
             warnings.simplefilter('ignore')
@@ -233,6 +551,10 @@ class C05:
                 obs_lit = '(Ok %s)' % lits[0]
         pv = pyobs.pyv(v)
         trivial = out[0] == 'ok' and pyfail is None and pyobs.val(v) == pyobs.val(out[1][0])
+        tags = [kind, path, pv.split(' ')[0].strip('()')]
+        if path.startswith('After/'):
+            _tag, state, path = path.split('/')
+            tags = [kind, 'After', 'state:' + state, path, pv.split(' ')[0].strip('()')]
         if path.endswith('Np'):
             # an element of a float64 / int64 array
             npv = np.array([0, v])[1]
@@ -246,14 +568,14 @@ class C05:
             m_expr = '(model_agrees IndexList %s %s %s)' % (kind, pv, obs_lit)
         else:
             o_expr = '(oracle %s %s %s)' % (kind, pv, obs_lit)
-            m_expr = '(model_agrees %s %s %s %s)' % (path, kind, pv, obs_lit)
+            m_expr = '(model_agrees_k %s %s %s %s)' % (PROXY.get(path, path), kind, pv, obs_lit)
         return {
             'input': inp, 'observed': observed, 'pyfail': pyfail,
             'oracle': o_expr,
             'model': m_expr,
             'nontrivial': not trivial,
-            'sig': '%s|%s|%s' % (kind, path, pv),
-            'tags': [kind, path, pv.split(' ')[0].strip('()')],
+            'sig': '%s|%s|%s' % (kind, inp['path'], pv),
+            'tags': tags,
         }
 
     # values are passed through JSON in replay files
@@ -299,9 +621,8 @@ class C05:
         import datamatrix._datamatrix._basecolumn as bc
         import datamatrix._datamatrix._numericcolumn as nc
         assert not bc.fastnumbers and nc.fastnumbers is None, 'fastnumbers present: kernels assume it is not'
-        os.makedirs(os.path.join(os.path.dirname(os.path.dirname(os.path.abspath(__file__))), '.work'), exist_ok=True)
-        self.tmpdir = tempfile.mkdtemp(prefix='c05-', dir=os.path.join(
-            os.path.dirname(os.path.dirname(os.path.abspath(__file__))), '.work'))
+        os.makedirs(work_dir(), exist_ok=True)
+        self.tmpdir = tempfile.mkdtemp(prefix='c05-', dir=work_dir())
         ints, floats, npv, strs, other = alphabet()
         values = ints + floats + npv + strs + other
         if tier == 'thorough':
@@ -320,18 +641,63 @@ class C05:
                 else:
                     values.append(''.join(rng.choice('ab1 .-eé,"\n_') for _ in range(rng.randint(1, 6))))
         cases = []
+        ext = alphabet(extended=True)
         for kind in KINDS:
             for path in PATHS:
-                for v in values:
+                for v in values + (ext if tier == 'thorough' or path in EXT_PATHS else []):
                     if not self.applicable(kind, path, v):
                         continue
                     c = self.rerun({'kind': kind, 'path': path, 'value': self._encode(v)})
                     if c is not None:
                         cases.append(c)
-        try:
-            os.rmdir(self.tmpdir)
-        except OSError:
-            pass
+        # a column object as value: every table state x every form x every source with three telling values
+        # (an integral float, an unsupported object, a numeric string), and a 25-value alphabet on a sub-grid
+        combos = []
+        srcs = CV_SOURCES if tier == 'thorough' else CV_SOURCES_QUICK
+        for state in CV_STATES:
+            for form in CV_FORMS:
+                for src in srcs:
+                    for v in cv_values_small():
+                        combos.append((state, form, src, v))
+        for state in ('fresh', 'catEmptySelR', 'catL', 'catEmptyDML'):
+            for form in ('SliceAll', 'SlicePart', 'SeqKey', 'SetItem'):
+                for src in ('MapOther', 'MapSame', 'ArithOther'):
+                    for v in cv_values():
+                        combos.append((state, form, src, v))
+        if tier == 'thorough':
+            vs = cv_values()
+            for _ in range(6000):
+                combos.append((rng.choice(CV_STATES), rng.choice(sorted(CV_FORMS)), rng.choice(CV_SOURCES),
+                               rng.choice(vs)))
+        seen = set()
+        for kind in KINDS:
+            for state, form, src, v in combos:
+                if not self.cv_applicable(kind, state, form, src, v):
+                    continue
+                inp = {'kind': kind, 'path': 'ColVal/%s/%s/%s' % (state, form, src), 'value': self._encode(v)}
+                key = repr(sorted(inp.items()))
+                if key in seen:
+                    continue
+                seen.add(key)
+                c = self.rerun(inp)
+                if c is not None:
+                    cases.append(c)
+        # plain values written into tables in every state
+        after_values = [1.0, ' 4.50 ', 'abc', None, np.float64(2.0), Obj()]
+        for kind in KINDS:
+            for state in CV_STATES:
+                if state == 'fresh':
+                    continue
+                for bp in AFTER_PATHS:
+                    for v in after_values:
+                        path = 'After/%s/%s' % (state, bp)
+                        if not self.applicable(kind, bp, v):
+                            continue
+                        c = self.rerun({'kind': kind, 'path': path, 'value': self._encode(v)})
+                        if c is not None:
+                            cases.append(c)
+        shutil.rmtree(self.tmpdir, ignore_errors=True)
+        self.tmpdir = os.path.dirname(self.tmpdir)       # later re-runs (shrinking, search, replay) use .work itself
         return cases
 
     def shrink_candidates(self, inp):
@@ -344,7 +710,7 @@ class C05:
     tmpdir = None
 
     def __init__(self):
-        base = os.path.join(os.path.dirname(os.path.dirname(os.path.abspath(__file__))), '.work')
+        base = work_dir()
         os.makedirs(base, exist_ok=True)
         self.tmpdir = base
 
